@@ -11,11 +11,45 @@ pub trait Prop {
 }
 
 pub mod entry;
+pub mod c01;
+pub mod c02;
+pub mod c03;
+pub mod c04;
+pub mod c05;
+pub mod c06;
+pub mod c07;
+pub mod c08;
+pub mod c09;
+pub mod c10;
+pub mod c11;
+pub mod c12;
+pub mod c13;
 pub mod c14;
+pub mod c15;
+pub mod c16;
+pub mod c17;
+pub mod c18;
 
 pub fn make(prop: &str, cx: &mut Ctx) -> Option<Box<dyn Prop>> {
     Some(match prop {
+        "C01" => Box::new(c01::C01::new(cx)),
+        "C02" => Box::new(c02::C02::new(cx)),
+        "C03" => Box::new(c03::C03::new(cx)),
+        "C04" => Box::new(c04::C04::new(cx)),
+        "C05" => Box::new(c05::C05::new(cx)),
+        "C06" => Box::new(c06::C06::new(cx)),
+        "C07" => Box::new(c07::C07::new(cx)),
+        "C08" => Box::new(c08::C08::new(cx)),
+        "C09" => Box::new(c09::C09::new(cx)),
+        "C10" => Box::new(c10::C10::new(cx)),
+        "C11" => Box::new(c11::C11::new(cx)),
+        "C12" => Box::new(c12::C12::new(cx)),
+        "C13" => Box::new(c13::C13::new(cx)),
         "C14" => Box::new(c14::C14::new(cx)),
+        "C15" => Box::new(c15::C15::new(cx)),
+        "C16" => Box::new(c16::C16::new(cx)),
+        "C17" => Box::new(c17::C17::new(cx)),
+        "C18" => Box::new(c18::C18::new(cx)),
         _ => return None,
     })
 }
